@@ -21,6 +21,14 @@ CONSTANTS
   W_QuorumMinusOne = TRUE
   PreVote = FALSE
   W_PreVoteRespCountsAsVote = FALSE
+  ConfChange = FALSE
+  InitVoters = {1, 2, 3}
+  AddVoters = {}
+  RemoveVoters = {}
+  MaxConfChanges = 0
+  MaxConfRefusals = 0
+  W_ConfChangeNoPendingCheck = FALSE
+  W_AddedVoterCaughtUp = FALSE
 INIT Init
 NEXT Next
 CONSTRAINT NetBound
